@@ -216,6 +216,22 @@ func c15Run(w *core.W, q *dns.Msg, envs [][]*model.Rec, tsig bool, f c15Fault, r
 			wire[0] ^= 0x55
 			wire[1] ^= 0x55
 		}
+		if f.kind == "alter-tsig-rr" && i == f.at && tsig {
+			// one bit of the envelope's own TSIG record, in a field its digest covers: the TTL of the record
+			// (part of the TSIG variables of a first envelope, RFC 8945 s.4.3.3) or, in a later envelope whose
+			// digest holds the timers only, the time signed
+			if no, ts, _, ok := model.SplitTSIG(wire); ok {
+				base := len(no) + len(ts.KeyName.Wire())
+				p := base + 4 + 3 // last octet of the TTL
+				if i > 0 {
+					p = base + 10 + len(ts.Algorithm.Wire()) + 5 // last octet of the time signed
+				}
+				if p < len(wire) {
+					wire = append([]byte(nil), wire...)
+					wire[p] ^= 0x01
+				}
+			}
+		}
 		if f.kind == "alter" && i == f.at {
 			// flip one octet inside the answer section (after the header and question)
 			p := 12 + len(mustName(q.Question[0].Name).Wire()) + 4 + 3
@@ -354,6 +370,7 @@ func c15RealSockets(w *core.W, g *model.Gen, zone model.Name, j int) {
 	// "tcp-self" and "tls-self": the Transfer value carries no connection, In dials the address itself (over
 	// TLS when the TLS field is set) and owns the connection it made
 	srvTLS, cliTLS := c13TLS()
+	leftOpen := 0
 	for ni, network := range []string{"unix", "tcp", "tcp-self", "tls-self"} {
 		addr := "127.0.0.1:0"
 		if network == "unix" {
@@ -454,10 +471,15 @@ func c15RealSockets(w *core.W, g *model.Gen, zone model.Name, j int) {
 				// the transfer ends "closing channel and connection": the primary sees the secondary hang up
 				// without anybody but the library touching the connection
 				if finished && firstErr == nil {
+					wait := c13Watch
+					if leftOpen >= 2 {
+						wait = 300 * time.Millisecond // it has been reported; the remaining transfers need not cost 15 s each
+					}
 					select {
 					case <-hungUp:
 						w.Count("real_socket_connections_closed_by_the_library", 1)
-					case <-time.After(c13Watch):
+					case <-time.After(wait):
+						leftOpen++
 						w.Violation("C15/real-socket/connection-left-open/"+network+"/"+st.kind, fmt.Sprintf("envelope sizes %v: the channel was closed at the closing SOA, the connection was still open %v later", sizes, c13Watch), wit)
 					}
 				}
@@ -1000,7 +1022,7 @@ func c15Case(w *core.W, j int) {
 	// faults
 	faults := []string{"first-not-soa", "rcode", "id", "rcode-noquestion"}
 	if tsig {
-		faults = append(faults, "alter", "reorder", "unsign", "wrongkey", "emptymac", "idwire", "append-after-tsig", "stale-time")
+		faults = append(faults, "alter", "alter-tsig-rr", "reorder", "unsign", "wrongkey", "emptymac", "idwire", "append-after-tsig", "stale-time")
 	}
 	for _, c := range []uint64{comps[0], comps[len(comps)-1], comps[len(comps)/2]} {
 		ne := len(compose(s.recs, c))
